@@ -34,6 +34,12 @@ type IngestScenario struct {
 	// every Empties-th row of a producer is handed in as an empty or nil map (a row without attributes is a row:
 	// it is processed and reported like any other, or counted as dropped)
 	Empties int `json:"empties"`
+	// Fourth directed family: the consumer is held in the sink until ONE producer has filled the buffer, then let go while the
+	// producer goes on: the buffer is expanded (its rows migrated) while the consumer is draining it.
+	DrainRace bool `json:"drainrace"`
+	// ExpansionConfig.ExpansionTimeout in nanoseconds (0 = leave the default): a configuration value like the others; whatever it
+	// is, every buffered row is processed or counted as dropped
+	ExpTimeoutNs int64 `json:"exptimeout_ns"`
 }
 
 // RunIngest runs one ingest scenario and returns its trace.
@@ -59,6 +65,9 @@ func RunIngest(sc IngestScenario) (evs []Ev, inconclusive string) {
 		pc.OverflowConfig.ExpansionConfig.MinIncrement = sc.MinInc
 	}
 	pc.OverflowConfig.ExpansionConfig.GrowthFactor = 1.5
+	if sc.ExpTimeoutNs > 0 {
+		pc.OverflowConfig.ExpansionConfig.ExpansionTimeout = time.Duration(sc.ExpTimeoutNs)
+	}
 	pc.OverflowConfig.BlockTimeout = 0
 	s := newInstance(streamsql.WithCustomPerformance(pc), streamsql.WithDiscardLog())
 	if err := s.Execute("SELECT id, p FROM stream"); err != nil {
@@ -101,7 +110,7 @@ func RunIngest(sc IngestScenario) (evs []Ev, inconclusive string) {
 	var firstSink sync.Once
 	sinkParked := make(chan struct{}, 1)
 	s.AddSyncSink(func(rs []map[string]any) {
-		if sc.SampleRace || sc.Stalled { // the consumer is BUSY in the sink while the buffer is expanded: it does not hold the old reference
+		if sc.SampleRace || sc.Stalled || sc.DrainRace { // the consumer is BUSY in the sink while the buffer is expanded: it does not hold the old reference
 			firstSink.Do(func() {
 				sinkParked <- struct{}{}
 				<-sinkGate
@@ -135,7 +144,21 @@ func RunIngest(sc IngestScenario) (evs []Ev, inconclusive string) {
 		s.Emit(map[string]any{"id": i, "p": p})
 	}
 	const T = 10 * time.Second
-	if sc.Stalled {
+	if sc.DrainRace {
+		emit(1, 1)
+		select {
+		case <-sinkParked:
+		case <-time.After(T):
+			return in.Events(), "consumer did not take the first row"
+		}
+		for i := 2; i <= sc.Data+1; i++ { // fill the buffer exactly: no expansion yet
+			emit(1, i)
+		}
+		close(sinkGate) // the consumer starts draining the full buffer ...
+		for i := sc.Data + 2; i <= sc.Rows; i++ { // ... while the producer's next rows expand it
+			emit(1, i)
+		}
+	} else if sc.Stalled {
 		emit(1, 1)
 		select {
 		case <-sinkParked: // the consumer sits in the sink with row 1: it is not receiving and holds no buffer reference
